@@ -44,6 +44,7 @@ SizeOf(v) == IF v.t = "str" THEN Len(v.v) ELSE Len(v.v)
 \* floats written with a few digits: 0.5 2.5 -7.5 0.1 0.3 1.25 3.0 20.0 -0.25 2.675
 Decs == {Dec(5, 1), Dec(25, 1), Dec(-75, 1), Dec(1, 1), Dec(3, 1), Dec(125, 2), Dec(30, 1), Dec(200, 1), Dec(-25, 2), Dec(2675, 3)}
 DecArrs == {Arr(s) : s \in SeqsUpTo({Dec(1, 1), Dec(2, 1), Dec(25, 1), IntV(2), Dec(-5, 1)}, 3)}
+Bigs == {BigInt("1000000000000000000000000000000"), BigInt("123456789012345678901234567890123"), BigInt("9007199254740993")}
 NumStrsD == {Str("1.5"), Str(" 2.50 "), Str("-0.25")}
 NumEq(x, y) == ~IsErr(x) /\ ~IsErr(y) /\ DEq(DecOf(x), DecOf(y))
 Nested == {Arr(<<IntV(2), Arr(<<IntV(3), Arr(<<IntV(7)>>)>>)>>), Arr(<<Arr(<<>>), IntV(2)>>)}
@@ -217,6 +218,12 @@ LawDecArrays == \A a \in DecArrs :
              /\ Ok(n) /\ SameBag(n.v, a.v) /\ \A i \in 1..(Len(n.v) - 1) : ~DLt(AsDec(n.v[i + 1]), AsDec(n.v[i]))
              /\ Ok(t) /\ DEq(DecOf(t), SumDec(a.v)) /\ (t.t = "dec") = (\E i \in DOMAIN a.v : a.v[i].t = "dec")
              /\ DEq(DecOf(Ap("sum", Ap("reverse", a, <<>>), <<>>)), DecOf(t))            \* the order of the summands does not matter
+\* exact integer arithmetic beyond 2^53 and beyond 28 digits
+LawBigInts == \A b \in Bigs, n \in {IntV(0), IntV(1), IntV(6)} :
+             LET p == Ap("plus", b, <<n>>) IN
+             Ok(p) => /\ p.t = "big" /\ Len(p.d) = Len(b.d)
+                      /\ Ap("minus", p, <<n>>) = b
+                      /\ Ap("times", b, <<IntV(10)>>).d = b.d \o "0"
 LawRounding == \A a \in Decs :
              LET fl == Ap("floor", a, <<>>)
                  ce == Ap("ceil", a, <<>>)
@@ -229,7 +236,7 @@ LawRounding == \A a \in Decs :
              /\ \A k \in {1, 2} : LET r == Ap("round", a, <<IntV(k)>>) IN
                    Ok(r) => r.t = "dec" /\ NormDec(r).de <= k /\ ~DLt(Dec(5, k + 1), DMinus(a, r)) /\ ~DLt(Dec(5, k + 1), DMinus(r, a))
 
-Laws == /\ LawDecArrays /\ LawDecimal /\ LawRepresentation /\ LawRounding /\ LawSort /\ LawReverse /\ LawUniq /\ LawCompact /\ LawConcat /\ LawFlatten /\ LawPartition /\ LawFind
+Laws == /\ LawBigInts /\ LawDecArrays /\ LawDecimal /\ LawRepresentation /\ LawRounding /\ LawSort /\ LawReverse /\ LawUniq /\ LawCompact /\ LawConcat /\ LawFlatten /\ LawPartition /\ LawFind
         /\ LawKeyLambda /\ LawMap /\ LawSplitJoin /\ LawStrip /\ LawAppend /\ LawTruncate /\ LawArith
         /\ LawNumericStrings /\ LawDefault /\ LawConcatNested /\ LawUniqDeep /\ LawSlice /\ LawReplaceLast /\ LawTruncateWords
         /\ LawSortNatural /\ LawSortNumeric /\ LawUrl /\ LawEscapeOnce
@@ -257,6 +264,7 @@ Apps ==
   \cup A0({"url_encode", "url_decode", "escape_once", "escape"}, Special \cup Strs)
   \cup A1({"plus", "minus", "times", "divided_by", "modulo", "at_least", "at_most"}, Decs \cup IntsPlain \cup NumStrsD, Decs \cup IntsPlain \cup NumStrsD \cup {IntV(0), Dec(0, 1)})
   \cup A0({"sum", "sort", "sort_numeric", "reverse", "first", "last", "uniq", "join"}, DecArrs)
+  \cup A1({"plus", "minus", "times"}, Bigs, {IntV(0), IntV(1), IntV(6), IntV(10), IntV(100)})
   \cup A0({"abs", "ceil", "floor", "round"}, Decs \cup NumStrsD \cup Ints) \cup A1({"round"}, Decs \cup Ints, {IntV(0), IntV(1), IntV(2), IntV(-1)})
   \cup A1({"truncate"}, Strs, {IntV(0), IntV(2), IntV(3), IntV(10)})
   \cup A1({"map", "where", "reject", "find", "find_index", "has", "compact", "sort", "uniq", "sum"}, HashArrs, {Str("a"), Str("t")})
